@@ -7,6 +7,7 @@ import (
 	"fmt"
 	"go/token"
 	"go/types"
+	"os"
 	"sort"
 	"strings"
 
@@ -25,8 +26,65 @@ type prefixUse struct {
 type roleTable map[string]map[string][]prefixUse // write|read|delete -> prefix -> uses
 
 func (cx *Ctx) roleUses(roots []*ssa.Function) roleTable {
+	return cx.roleUsesIn(cx.Reachable(roots, nil))
+}
+
+// reachableCS: reachability in which a callback is entered only from the function that
+// creates or passes it (closure creation, function-valued argument), never through the
+// context-free "any function of this type" edge of the call inside a shared iterator.
+// Used for the genesis export and import paths, whose read / write sets must not be
+// polluted by the closures that OTHER callers hand to the same iterator helper.
+func (cx *Ctx) reachableCS(roots []*ssa.Function) *Reach {
+	r := &Reach{Pred: map[*ssa.Function]*reachPred{}}
+	var q []*ssa.Function
+	add := func(from *ssa.Function, site ssa.Instruction, g *ssa.Function) {
+		if g == nil {
+			return
+		}
+		if _, ok := r.Pred[g]; ok {
+			return
+		}
+		r.Pred[g] = &reachPred{from, site}
+		q = append(q, g)
+	}
+	for _, f := range roots {
+		if _, ok := r.Pred[f]; !ok {
+			r.Pred[f] = &reachPred{}
+			q = append(q, f)
+		}
+	}
+	for len(q) > 0 {
+		f := q[0]
+		q = q[1:]
+		r.Order = append(r.Order, f)
+		if f.Blocks == nil {
+			continue
+		}
+		for _, e := range cx.Edges(f) {
+			if e.Kind == "dynamic" {
+				continue
+			}
+			add(f, e.Site, e.Callee)
+		}
+		for _, b := range f.Blocks {
+			for _, ins := range b.Instrs {
+				ci, ok := ins.(ssa.CallInstruction)
+				if !ok {
+					continue
+				}
+				for _, a := range ci.Common().Args {
+					if g, ok := a.(*ssa.Function); ok {
+						add(f, ins, g)
+					}
+				}
+			}
+		}
+	}
+	return r
+}
+
+func (cx *Ctx) roleUsesIn(reach *Reach) roleTable {
 	t := roleTable{"write": {}, "read": {}, "delete": {}}
-	reach := cx.Reachable(roots, nil)
 	for _, f := range reach.Order {
 		if f.Blocks == nil || !isIrismodFunc(f) || cx.isDoubleFunc(f) {
 			continue
@@ -41,6 +99,72 @@ func (cx *Ctx) roleUses(roots []*ssa.Function) roleTable {
 			}
 		}
 	}
+	return t
+}
+
+// rebuiltFromImported: no import write under px stores a constant under a constant key
+// (a counter reset to zero rebuilds nothing): the key or the value of every such write is
+// computed from something - the restored record, a count, a loop variable.
+func (cx *Ctx) rebuiltFromImported(it roleTable, px string) bool {
+	var constLike func(v ssa.Value, d int) bool
+	constLike = func(v ssa.Value, d int) bool {
+		if d > 8 {
+			return false
+		}
+		switch x := v.(type) {
+		case *ssa.Const, *ssa.Global:
+			return true
+		case *ssa.UnOp:
+			return constLike(x.X, d+1)
+		case *ssa.Convert:
+			return constLike(x.X, d+1)
+		case *ssa.ChangeType:
+			return constLike(x.X, d+1)
+		case *ssa.MakeInterface:
+			return constLike(x.X, d+1)
+		case *ssa.Slice:
+			return constLike(x.X, d+1)
+		case *ssa.Call:
+			if x.Common().IsInvoke() {
+				return false
+			}
+			for _, a := range x.Common().Args {
+				if !constLike(a, d+1) {
+					return false
+				}
+			}
+			return true
+		}
+		return false
+	}
+	for _, u := range it["write"][px] {
+		args := u.site.Common().Args
+		if len(args) < 2 {
+			return false
+		}
+		if constLike(args[0], 0) && constLike(args[1], 0) {
+			return false
+		}
+	}
+	return true
+}
+
+// exportReads: prefixes read on the ExportGenesis path of module m (context-sensitive reach).
+func (cx *Ctx) exportReads(m string) map[string][]prefixUse {
+	if cx.expReads == nil {
+		cx.expReads = map[string]map[string][]prefixUse{}
+	}
+	if t, ok := cx.expReads[m]; ok {
+		return t
+	}
+	var ex []*ssa.Function
+	for _, e := range cx.entriesOfModule(m, "genesis") {
+		if e.Name == "ExportGenesis" {
+			ex = append(ex, e.Fn)
+		}
+	}
+	t := cx.roleUsesIn(cx.reachableCS(ex))["read"]
+	cx.expReads[m] = t
 	return t
 }
 
@@ -126,7 +250,7 @@ func runC12(cx *Ctx, r *Report) {
 			r.toolErr("module %s: %d ExportGenesis / %d InitGenesis entries", m, len(ex), len(im))
 			continue
 		}
-		et, it := cx.roleUses(ex), cx.roleUses(im)
+		et, it := cx.roleUsesIn(cx.reachableCS(ex)), cx.roleUsesIn(cx.reachableCS(im))
 		for _, cls := range []string{"write", "read", "delete"} {
 			for _, tab := range []roleTable{rt, et, it} {
 				for px, us := range tab[cls] {
@@ -145,6 +269,12 @@ func runC12(cx *Ctx, r *Report) {
 		sort.Strings(ws)
 		for _, px := range ws {
 			u := rt["write"][px][0]
+			if os.Getenv("DEBUG_G1") != "" {
+				fmt.Fprintf(os.Stderr, "G1 %s %s exported=%v\n", m, px, coveredBy(px, et["read"]))
+				if us := et["read"][px]; len(us) > 0 {
+					fmt.Fprintf(os.Stderr, "   via %s\n", cx.reachableCS(ex).Path(us[0].fn))
+				}
+			}
 			pos := cx.P.Pos(u.site.Pos())
 			switch {
 			case coveredBy(px, et["read"]):
@@ -153,6 +283,10 @@ func runC12(cx *Ctx, r *Report) {
 				r.ok("G1-runtime-exported", m+"|"+px, pos, "written at run time; rebuilt by InitGenesis from exported data (derived)")
 			case contains(c12Dropped[m], px):
 				r.ok("G1-runtime-exported", m+"|"+px, pos, "written at run time; in-flight data documented as dropped on export")
+			case len(it["write"][px]) > 0 && cx.rebuiltFromImported(it, px):
+				// a prefix of no table (a secondary index or counter added later): it is not part
+				// of the genesis format, and InitGenesis rebuilds it from the records it restores
+				r.ok("G1-runtime-exported", m+"|"+px, pos, "written at run time; not exported, rebuilt by InitGenesis from the records it restores (derived index)")
 			default:
 				r.violate("G1-runtime-exported", m+"|"+px, pos, "prefix "+px+" is written on a message/block path ("+shortFn(u.fn)+") but neither read by ExportGenesis nor listed as derived/dropped: this state is lost on export")
 			}
@@ -453,7 +587,18 @@ func (cx *Ctx) c12ImportLoops(r *Report) {
 			// G6: key depends on derived module state
 			keyS := ev.Args[0].LooseString()
 			_, keyCallees := keyDeps(ev, nil)
+			// (a secondary index that is not part of the genesis format inherits the key of the
+			// record it points to; the provenance of that key is judged at the record's own write)
+			g6applies := false
+			for _, px := range ev.Prefix {
+				if coveredBy(px, cx.exportReads(m)) || contains(c12Derived[m], px) {
+					g6applies = true
+				}
+			}
 			for _, d := range c12Derived[m] {
+				if !g6applies {
+					break
+				}
 				// the result of a getter of the derived prefix flows into the key
 				for _, f := range cx.gettersOf(m, []string{d}) {
 					if strings.Contains(keyS, callNameOfFn(f)+"(") || keyCallees[f] {
